@@ -5,6 +5,7 @@ package gen
 
 import (
 	"fmt"
+	"math"
 
 	"pgregory.net/rapid"
 
@@ -60,36 +61,36 @@ type scope struct {
 
 // Opts configures program generation.
 type Opts struct {
-	MaxStmts     int  // top-level statement budget (total statements ~ 2-3x)
-	MaxDepth     int  // expression depth
-	Risky        int  // per-mille probability of a type-undirected sub-expression
-	NoMapIter    bool // do not iterate maps / render maps to strings
-	ScopeIndep   bool // C11 fragment: closures made in loop bodies that capture loop-body variables are only called in place
-	InModule     bool // generating a module body: export allowed, no host inputs
-	Modules      []string // importable source-module names
-	HostMods     []string // importable builtin (Go) module names
-	NoFormat     bool
-	NoTime       bool
-	NoHostFns    bool
-	AllowExport  bool
-	ControlHeavy bool // bias towards loops, branches, returns and function literals
-	DeadCode     bool // keep generating statements after return/break/continue more often
+	MaxStmts      int      // top-level statement budget (total statements ~ 2-3x)
+	MaxDepth      int      // expression depth
+	Risky         int      // per-mille probability of a type-undirected sub-expression
+	NoMapIter     bool     // do not iterate maps / render maps to strings
+	ScopeIndep    bool     // C11 fragment: closures made in loop bodies that capture loop-body variables are only called in place
+	InModule      bool     // generating a module body: export allowed, no host inputs
+	Modules       []string // importable source-module names
+	HostMods      []string // importable builtin (Go) module names
+	NoFormat      bool
+	NoTime        bool
+	NoHostFns     bool
+	AllowExport   bool
+	ControlHeavy  bool // bias towards loops, branches, returns and function literals
+	DeadCode      bool // keep generating statements after return/break/continue more often
 	AlwaysErrMode bool // every program may contain deliberately ill-typed sites
-	StringHeavy  bool // bias towards string / bytes producing operations (size limits)
+	StringHeavy   bool // bias towards string / bytes producing operations (size limits)
 }
 
 // G is the generation context.
 type G struct {
-	t        *rapid.T
-	o        Opts
-	sc       *scope
-	nameN    int
-	fnDepth  int
-	loopDepth int // loops inside the current function
+	t          *rapid.T
+	o          Opts
+	sc         *scope
+	nameN      int
+	fnDepth    int
+	loopDepth  int // loops inside the current function
 	stmtBudget int
-	label    int
-	hideLoop []int // ScopeIndep: function depths whose loop-body variables are hidden (inside a function literal made in a loop)
-	errMode  bool // this program may contain deliberately ill-typed sites
+	label      int
+	hideLoop   []int // ScopeIndep: function depths whose loop-body variables are hidden (inside a function literal made in a loop)
+	errMode    bool  // this program may contain deliberately ill-typed sites
 	// stats for classification
 	Feat map[string]int
 }
@@ -904,7 +905,13 @@ func (g *G) callStmt() *lang.Node {
 		if a := g.pickVar("spliceArr", func(v *vinfo) bool { return v.t == TArr }); a != nil && g.builtinFree("splice") {
 			args := []*lang.Node{lang.Ident(a.name), lang.Int(int64(g.draw(3, "spStart")))}
 			if g.chance(700, "spCount") {
-				args = append(args, lang.Int(int64(g.draw(3, "spCnt"))))
+				cnt := lang.Int(int64(g.draw(3, "spCnt")))
+				if g.chance(150, "spCntBig") {
+					// "a count greater than what is left deletes to the end" -
+					// also for counts at the far end of the int range
+					cnt = lang.Int([]int64{4, 100, 1 << 31, math.MaxInt64 - 1, math.MaxInt64}[g.draw(5, "spCntB")])
+				}
+				args = append(args, cnt)
 				for i := g.draw(3, "spItems"); i > 0; i-- {
 					args = append(args, g.expr(TAny, 1))
 				}
